@@ -2,4 +2,4 @@ INIT Init
 NEXT Next
 INVARIANT Emit
 CHECK_DEADLOCK FALSE
-CONSTANTS N = 3000  Mode = "planted"
+CONSTANTS N = 6000  Mode = "planted"
